@@ -136,6 +136,20 @@ def _extra():
     # strobe on an element: the store goes to the element (the accumulator's value lands there)
     for k in (0, 2, 3):
         add("strobe-element", "unsigned char regs[4]; unsigned char v;", "load(v); strobe(regs[%d]);" % k, {"init": {"v": 9}, "expect": {"regs+%d" % k: 9}}, "strobe(regs[%d])" % k)
+    # INC / DEC under another operand text of the same cell; a compare of a symbolic immediate with a number
+    for x in (1, 2):
+        add("opt-memory-write-aliases", "unsigned char a[4]; unsigned char r;", "r = 0; X = %d; if (a[X] == 3) { a[1]++; if (a[X] == 4) r = 1; }" % x, {"init": {"a+1": 3, "a+2": 3}, "expect": {"r": int(x == 1)}}, "INC a+1 between two reads of a[X], X=%d" % x)
+        add("opt-memory-write-aliases", "unsigned char a[4]; unsigned char r;", "r = 0; X = %d; if (a[1] == 3) { a[X]--; if (a[1] == 2) r = 1; }" % x, {"init": {"a+1": 3, "a+2": 3}, "expect": {"r": int(x == 1)}}, "DEC a,X between two reads of a[1], X=%d" % x)
+    for k in (128, 127, 0):
+        add("opt-symbolic-immediate", "const char arr[] = {1,2}; unsigned char i, j;", "j = 0; i = arr; if (i != %d) j = 1;" % k, {"expect": {"j": int(k != 128)}}, "low byte of an address (128 on the interpreter) compared with %d" % k)
+    # ---- recorded known findings (reported by the hunting sub-agents, confirmed here, not repaired: see known_findings.jsonl) ----
+    add("kf-char-assignment-nested-in-16bit-assignment", "short s, t; unsigned char a;", "s = 0x5555; s = a = t;", {"init": {"t": 7, "t+1": 2}, "expect": {"a": 7}, "expect16": {"s": 7}}, "s = a = t: the value of `a = t` is a's, high byte 0")
+    add("kf-postincrement-in-call-argument", "unsigned char i, r; void f(unsigned char p) { r = i; }", "i = 5; f(i++);", {"expect": {"r": 6, "i": 6}}, "f(i++): the increment happens before the call (sequence point)")
+    add("kf-16bit-truth-value", "short s; unsigned char b;", "b = 0; if (s & 0x100) b = 1;", {"init": {"s": 0, "s+1": 1}, "expect": {"b": 1}}, "if (s & 0x100) with s = 0x100")
+    add("kf-16bit-truth-value", "short sa[4]; unsigned char b;", "b = 0; X = 1; if (sa[X]) b = 1;", {"init": {"sa+5": 1}, "expect": {"b": 1}}, "if (sa[X]) with only the high byte set")
+    add("kf-out-of-range-constant-compare", "unsigned char a, b;", "b = 0; if (a == 300) b = 1;", {"init": {"a": 44}, "expect": {"b": 0}}, "a == 300 is never true for a char")
+    add("kf-stale-carry-after-subtraction", "unsigned char a, b, c, r;", "r = 0; a = b - c; if (a > 0) r = 1;", {"init": {"b": 1, "c": 2}, "expect": {"r": 1, "a": 255}}, "a = b - c; if (a > 0) with a borrow")
+    add("kf-nested-call-of-the-same-function", "unsigned char a, b; unsigned char f(unsigned char x, unsigned char y) { return x - y; }", "a = 9; b = 20; a = f(b, f(a, 1));", {"expect": {"a": 12}}, "f(b, f(a, 1)): the inner call overwrites the outer call's first parameter")
     # loops: for / while / do-while agree
     for n in (0, 1, 5, 200):
         tot = sum(range(n)) & 255
@@ -254,7 +268,7 @@ def _group_of(src):
 
 def corpus(tier):
     """[(group name, properties, [programs])]: every program at -O0 (C01, C15) and at -O1 (C02)."""
-    from . import u_condex, u_cond16, u_arithm, u_assign, u_shift, u_condval, u_gencond, u_if, u_loops, u_condtail, u_switch, u_callonce, u_sign, u_subscript, u_callframe, u_assignarm, u_compoundarm, u_stmt
+    from . import u_condex, u_cond16, u_arithm, u_assign, u_shift, u_condval, u_gencond, u_if, u_loops, u_condtail, u_switch, u_callonce, u_sign, u_subscript, u_callframe, u_assignarm, u_compoundarm, u_stmt, u_widearms
     groups = {}
     for mod in (u_condex, u_cond16, u_arithm, u_shift):
         for c in mod.candidates(None):
@@ -263,7 +277,7 @@ def corpus(tier):
         groups.setdefault("logical-conditions", []).append(c)
     for c in u_condval.candidates(None):
         groups.setdefault("cond-value", []).append(c)
-    for mod, gname in ((u_if, "if-forms"), (u_loops, "loop-contract-candidates"), (u_condtail, "cond-tail"), (u_switch, "switch-forms"), (u_callonce, "call-in-16bit-context"), (u_sign, "declared-signedness"), (u_subscript, "element-access"), (u_callframe, "call-frame"), (u_assignarm, "assign-16bit-element"), (u_compoundarm, "compound-16bit-destination"), (u_stmt, "function-entry")):
+    for mod, gname in ((u_if, "if-forms"), (u_loops, "loop-contract-candidates"), (u_condtail, "cond-tail"), (u_switch, "switch-forms"), (u_callonce, "call-in-16bit-context"), (u_sign, "declared-signedness"), (u_subscript, "element-access"), (u_callframe, "call-frame"), (u_assignarm, "assign-16bit-element"), (u_compoundarm, "compound-16bit-destination"), (u_stmt, "function-entry"), (u_widearms, "narrow-values-in-16bit-context")):
         for c in mod.candidates(None):
             if c.get("simulate") and not c.get("contract_only"):
                 groups.setdefault(gname, []).append(c)
